@@ -36,6 +36,8 @@ import (
 
 const vkCeiling = 12 * time.Hour
 
+var vkVerbose = false // smoke aid: keep the reply text of every step
+
 var vkForever = time.Unix(1<<40, 0)
 
 type vkDatum struct {
@@ -240,6 +242,7 @@ func vkHistStr(h []vkEv) string {
 }
 
 type vkStep struct {
+	Reply    string
 	Viol     string
 	Class    string
 	Outcome  string
@@ -356,6 +359,9 @@ func (w *vkWorld) query(ev vkEv) vkStep {
 	t1 := vtime.Now()
 	ex := w.exchanges()[n0:]
 	st := vkStep{Elapsed: r.Elapsed, Upstream: len(ex)}
+	if vkVerbose {
+		st.Reply = vkMsgStr(r.Msg)
+	}
 	// the simulation's own log must agree with the hook's record (sequential fan-out)
 	if lg := w.sim.Log(); len(lg) != n0+len(ex) {
 		st.Viol, st.Class = fmt.Sprintf("harness: exchange record (%d) and authsim log (%d) disagree", n0+len(ex), len(lg)), "harness-desync"
